@@ -22,4 +22,4 @@ PY
   echo "$PID-$K benign: check exit=$CE violations=$VL undecided=$UL  $(tail -1 $OUT/check_patched.log | cut -c1-120)"
   grep -E "^# |^VIOLATION" $OUT/check_patched.log | head -4 | cut -c1-220
 done
-rm -rf /var/tmp/pyvc-scratch-evidence
+find /var/tmp/pyvc-scratch-evidence -mindepth 1 -maxdepth 1 -mmin +120 -exec rm -rf {} + 2>/dev/null
